@@ -1,5 +1,7 @@
 """Generate obligations for every contract of the given modules from the current source, discharge them in a process pool."""
+import ast
 import collections
+import hashlib
 import multiprocessing
 import os
 import subprocess
@@ -188,9 +190,46 @@ def to_smt2(hyps, goal):
     return s.to_smt2().replace('(check-sat)', '')
 
 
+def load_repo_classes(prog):
+    """index every class of the repository (so that overriding definitions are seen whichever module a contract names)"""
+    for pkg in ('xtuml', 'bridgepoint'):
+        d = os.path.join(prog.repo, pkg)
+        if not os.path.isdir(d):
+            continue
+        for f in sorted(os.listdir(d)):
+            if f.endswith('.py') and not f.startswith('__'):
+                try:
+                    prog.load('%s.%s' % (pkg, f[:-3]))
+                except (KeyError, SyntaxError):
+                    pass
+
+
+def overridden_by(reg, prog, qual):
+    """A contract on Base.meth is a statement about every receiver that inherits it.  If a repository class K below Base now defines
+    `meth` itself (or inherits another definition that comes before Base in its MRO) and that definition has no contract, the verified
+    text is no longer the code that runs for K.  Returns (K, defining class, source hash of the overriding definition) or None."""
+    parts = qual.split('@')[0].split('.')
+    if len(parts) < 3 or parts[-2] not in prog.classes:
+        return None
+    base, meth = parts[-2], parts[-1]
+    for k, info in prog.classes.items():
+        if k == base or not prog.modules[info['module']][0].startswith(prog.repo):
+            continue
+        mro = reg.mro(k)
+        if base not in mro:
+            continue
+        for c in mro[:mro.index(base)]:
+            ci = prog.classes.get(c)
+            if ci and meth in ci['methods'] and not any(ct.qual.split('@')[0].endswith('.%s.%s' % (c, meth)) for ct in reg.contracts.values()):
+                seg = ast.get_source_segment(prog.modules[ci['module']][2], ci['methods'][meth]) or ''
+                return k, c, hashlib.sha1(seg.encode()).hexdigest()[:12]
+    return None
+
+
 def verify_modules(modnames, tier='quick', prop=None, only=None):
     prog = Program()
     reg = Registry(modnames, prog)
+    load_repo_classes(prog)
     timeout = QUICK_TIMEOUT_MS if tier == 'quick' else THOROUGH_TIMEOUT_MS
     jobs, obl_meta, functions, errors, outside = [], {}, [], [], []
     outside_detail = []
@@ -206,6 +245,18 @@ def verify_modules(modnames, tier='quick', prop=None, only=None):
                 assumptions.append('assumed contract (not verified): %s — %s' % (qual, ct.reason))
                 continue
             t0 = time.time()
+            if ct.kind != 'lemma':
+                try:
+                    prog.find(qual)
+                    ov = overridden_by(reg, prog, qual)
+                except KeyError:
+                    ov = None
+                if ov:
+                    outside.append('%s: outside the verified subset: class %s runs %s.%s instead (a definition without contract that '
+                                   'comes first in its method resolution order); the contract no longer describes the code that runs'
+                                   % (qual, ov[0], ov[1], qual.split('@')[0].split('.')[-1]))
+                    outside_detail.append((qual, ov[2]))
+                    continue
             ex = Exec(reg, ct)
             try:
                 obls = ex.run()
@@ -325,6 +376,26 @@ def verify_modules(modnames, tier='quick', prop=None, only=None):
                 covers=sorted(covers, key=lambda c: c['name']))
 
 
+def groups_of(mods):
+    """a property's `pyvc` list: plain module names share one registry (the first group); a nested list is a group of its own,
+    verified in a separate registry (for contract modules that type a heap field differently, e.g. Stmt.attributes)"""
+    first = [m for m in mods if isinstance(m, str)]
+    return ([first] if first else []) + [list(m) for m in mods if not isinstance(m, str)]
+
+
+def verify_groups(mods, tier='quick', prop=None, only=None):
+    out = None
+    for g in groups_of(mods):
+        r = verify_modules(g, tier=tier, prop=prop, only=only)
+        if out is None:
+            out = r
+            continue
+        for k in ('outside_detail', 'obligations', 'functions', 'errors', 'outside_subset', 'covers'):
+            out[k] = list(out[k]) + list(r[k])
+        out['assumptions'] = list(out['assumptions']) + [a for a in r['assumptions'] if a not in out['assumptions']]
+    return out or dict(outside_detail=[], obligations=[], functions=[], errors=[], outside_subset=[], assumptions=[], covers=[])
+
+
 def replay(spec, rec):
     """re-execute a recorded native-call counterexample on the current tree"""
     from . import native
@@ -332,8 +403,12 @@ def replay(spec, rec):
     if inp.get('kind') != 'native-call':
         return []
     prog = Program()
-    reg = Registry(spec['pyvc'], prog)
-    ct = reg.contracts[inp['function']]
+    ct = None
+    for g in groups_of(spec['pyvc']):
+        reg = Registry(g, prog)
+        if inp['function'] in reg.contracts:
+            ct = reg.contracts[inp['function']]
+            break
     rp = native.replay(ct, inp['clause_kind'], inp['clause'], inp['args'])
     if rp.get('reproduced'):
         return [dict(clause=inp['clause'], observed=rp['observed'], required=rp['required'])]
